@@ -395,12 +395,19 @@ class ProtocolMixin(object):
 
     def sort_fields(self, cls=None, items=None):
         logger.debug("%r sortcache size: %d", self, len(self._sortcache))
-        retval = self._sortcache.get(cls, None)
-        if retval is not None:
-            return retval
+        # the cached list is good for as long as the class has the field table
+        # it was computed from: append_field(), insert_field() and customize()
+        # drop the memoized flat type info, so a new one means "look again".
+        fti = None
+        if cls is not None:
+            fti = cls.get_flat_type_info(cls)
+
+        entry = self._sortcache.get(cls, None)
+        if entry is not None and entry[0] is fti:
+            return entry[1]
 
         if items is None:
-            items = list(cls.get_flat_type_info(cls).items())
+            items = list(fti.items())
 
         indexes = {}
         for k, v in items:
@@ -417,7 +424,7 @@ class ProtocolMixin(object):
                 indexes[k] = len(indexes)
 
         items.sort(key=lambda x: indexes[x[0]])
-        self._sortcache[cls] = items
+        self._sortcache[cls] = fti, items
 
         return items
 
